@@ -96,6 +96,9 @@ class Layout:
                 pieces = [(self.put(first), 1)]
             elif vkind == "plain3":
                 pieces = [(self.put(first + "vV"), 3)]
+            elif vkind == "pyhash3":     # PYTHON_STYLE only: a comment character inside the value stays part of the value
+                assert self.python
+                pieces = [(self.put(first + "hV"), 3)]
             elif vkind.startswith("plainN"):
                 k = int(vkind[6:]); pieces = [(self.put(first + "v" * (k - 2) + "V" if k >= 2 else first), k)]
             elif vkind.startswith("quotedN"):
